@@ -228,7 +228,7 @@ def _layout_ob(c: ClassInfo, inst: str, rv: TensorV, loc: str) -> Ob:
     return ok("R4l", c.qualname, linst, fmt_all(rv.lay), loc)
 
 
-def _inner_layout_obs(c: ClassInfo, inst: str, rv: TensorV, pairings: list, ar: Dim, loc: str) -> list[Ob]:
+def _inner_layout_obs(c: ClassInfo, inst: str, rv: TensorV, pairings: list, ar: Dim, loc: str, has_params: bool = True) -> list[Ob]:
     """element-order contracts of inner layers (arity > 1):
     * the unit axis of a layer that combines the units of its inputs lists input 0 major
       ([Ki|H=0, Ki|H=1, ..]) -- the order the Tucker / sampling / multiplication code assume;
@@ -265,6 +265,8 @@ def _inner_layout_obs(c: ClassInfo, inst: str, rv: TensorV, pairings: list, ar: 
                 out.append(ok("R4l", c.qualname, linst + ":weight-columns", f"weight columns contracted against {fmt_all([data])[1:-1]} (arity major)", loc))
             else:
                 out.append(viol("R4l", c.qualname, linst + ":weight-columns", f"weight columns contracted against {fmt_all([data])[1:-1]}: the mixing-weight parameter and sampling lay the columns out arity major ([H, Ki])", loc))
+    if has_params and not out and not [p for p in pairings if len([x for x in p[1] if x is not None]) == 2]:
+        out.append(unres("R4l", c.qualname, linst + ":element-order", "no element order derived for this forward (a reshaping outside the layout vocabulary)", loc))
     return out
 
 
@@ -491,7 +493,7 @@ def _one_layer_method(ctx: Ctx, c: ClassInfo, obj: ObjV, st0: State, meth: str, 
             if got == w:
                 out.append(ok(rule, c.qualname, inst, f"{fmt_shape(got)}{cond}", fi.loc))
                 if kind == "inner" and meth == "forward":
-                    out.extend(_inner_layout_obs(c, inst, rv, it.pairings, ar_d, fi.loc))  # type: ignore[attr-defined]
+                    out.extend(_inner_layout_obs(c, inst, rv, it.pairings, ar_d, fi.loc, any(isinstance(v, ParamV) for v in h.values())))  # type: ignore[attr-defined]
             else:
                 out.append(viol(rule, c.qualname, inst, f"returns {fmt_shape(got)}, contract {fmt_shape(w)}{cond}", fi.loc))
     except ShapeError as e:
